@@ -170,27 +170,23 @@ def classify(ctx, actual, exp, alts, match_alt, what, replay_obj, stats):
 # 1. names / units
 # ================================================================================================
 def names_jobs(ctx):
-    jobs = []
-    for part in ("name", "unit", "cross", "bytes"):
-        jobs.append(Job("names-" + part, "InstrumentNames",
-                        'CONSTANTS Part = "%s"\nINIT Init\nNEXT Next\nINVARIANTS %s Emit\n' % (part, NAME_INVS)))
-    return jobs
+    # one run: the contract invariants on every case of the partition + the expected outcome per case
+    return [Job("names-all", "InstrumentNames",
+                'CONSTANTS Part = "all"\nINIT Init\nNEXT Next\nINVARIANTS %s Emit\n' % NAME_INVS, workers=3)]
 
 
 def names_replay(ctx, exe, results):
     thorough = ctx.tier == "thorough"
     cases = []
     tags = set()
-    for part in ("name", "unit", "cross", "bytes"):
-        r = results["names-" + part]
-        expect_status(r, "names-" + part, "ok")
-        b = r.printed("BEH")
-        if len(b) != r.distinct or not b:
-            raise Broken("names-%s: %d BEH lines for %d states" % (part, len(b), r.distinct))
-        for c in b:
-            c["part"] = part
-            tags |= set(c["tags"])
-            cases.append(c)
+    r = results["names-all"]
+    expect_status(r, "names-all", "ok")
+    b = r.printed("BEH")
+    if len(b) != r.distinct or not b:
+        raise Broken("names-all: %d BEH lines for %d states" % (len(b), r.distinct))
+    for c in b:
+        tags |= set(c["tags"])
+        cases.append(c)
     if tags != NAME_TAGS:
         raise Broken("vacuity: name/unit partition misses the situations %s" % sorted(NAME_TAGS - tags))
     cases.sort(key=canon)
@@ -255,7 +251,7 @@ def views_jobs(ctx):
     t2 = "Types3" if thorough else "Types2"
     jobs = [
         # exhaustive model checking (no history variable)
-        Job("views-mc-pairs", "Views", views_cfg(t2, "Pats3", "UnitSel2", "MSels4" if thorough else "MSels3", "Shapes2",
+        Job("views-mc-pairs", "Views", views_cfg(t2, "Pats3", "UnitSel2", "MSels4" if thorough else "MSels2", "Shapes2",
                                                  "INamesAll", "IUnits2" if thorough else "IUnit1", "Meters2", "Attrs1",
                                                  2, 1, False, VIEW_INVS), workers=4, coverage=True),
         Job("views-mc-select", "Views", views_cfg(t2, "PatsAll", "UnitSelAll", "MSelsAll",
@@ -507,10 +503,11 @@ def scope_traces(ctx, exe):
             lines += [ln for ln in r.lines if ln.startswith("{")]
     if not lines:
         raise Broken("recorder produced no events")
-    res = trace.validate(ctx, "ScopeConfigTrace", cfg, lines, chunk=(per + 1) // 2, parallel=4, tag="sc")
+    res = trace.validate(ctx, "ScopeConfigTrace", cfg, lines, chunk=(per + 1) // 2, parallel=4, tag="sc", max_rejects=2)
     ctx.extra["scope_executions_validated"] = res["executions"]
     ctx.extra["scope_events_validated"] = res["events"]
-    for rj in res["rejected"]:
+    ctx.extra["scope_executions_rejected"] = len(res["rejected"])
+    for rj in res["rejected"][:3]:
         ev, at = rj["events"], rj["at"]
         ctx.violation("scopes: ScopeConfigTrace rejects a real %s-provider history at event %d: %s (configuration %s)" % (
             ev[0].get("signal"), at, json.dumps(ev[at]) if at < len(ev) else "?", json.dumps(ev[0])),
@@ -563,7 +560,7 @@ def run(ctx):
     # longest first
     order = {"views-mc-pairs": 0, "views-mc-select": 1, "views-mc-shape": 2}
     jobs.sort(key=lambda j: order.get(j.name, 9))
-    results = run_jobs(ctx, jobs, parallel=4 if ctx.tier == "thorough" else 3)
+    results = run_jobs(ctx, jobs, parallel=4)
     log("TLC runs done at %.1fs" % ctx.timer.s())
     names_replay(ctx, exe, results)
     log("names replayed at %.1fs" % ctx.timer.s())
